@@ -219,7 +219,7 @@ void hx_gen(Rng &r, const std::string &tier)
     emit("fd 0 3 2 5 7 5", "dup");
     emit("fd 3 0 0 0 0 0", "dup");
     // every size 1..7 x every order 0..size, several random grids each
-    int reps = th ? 40 : 6;
+    int reps = th ? 60 : 14;
     for (size_t n = 1; n <= (th ? 9u : 7u); n++)
         for (unsigned md = 0; md <= n; md++)
             for (int t = 0; t < reps; t++) {
